@@ -643,3 +643,142 @@ fn stale_failure(r: &mut Rng) -> Scenario {
     }
     b.finish("stale_failure", true, false)
 }
+
+// ------------------------------------------------------------------------------------------
+// confluent scenarios (C03): every mailbox has ONE sender, every select ONE source, no timeouts
+// ------------------------------------------------------------------------------------------
+
+/// Random process tree. For every child the parent picks a session: `oneway(k)` (parent sends k
+/// messages, child receives k), `reply(k)` (k request/reply rounds; only if the parent does not
+/// itself receive from its own parent and has no other replying child, so that its mailbox keeps a
+/// single sender) or `none`. Every process awaits all its children (single awaits) and returns
+/// everything it received and awaited: the result of the main process determines all others.
+pub fn confluent(r: &mut Rng) -> Scenario {
+    let mut b = B::new();
+    let budget = 2 + r.usize(6);
+    let mut count = 1usize;
+    build_confluent(&mut b, r, 0, false, &mut count, budget, 0);
+    b.finish("confluent", true, true)
+}
+
+fn build_confluent(b: &mut B, r: &mut Rng, p: usize, receives_from_parent: bool, count: &mut usize, budget: usize, depth: usize) {
+    let nkids = if depth >= 3 || *count >= budget { 0 } else { 1 + r.usize(3) };
+    let mut kids: Vec<(usize, usize)> = vec![]; // (script, reg in p)
+    let mut has_reply_child = false;
+    // sessions are collected first so that all children exist before the traffic starts (or not)
+    let mut sessions: Vec<(usize, usize, u8, usize)> = vec![]; // (script, reg, mode, k)
+    for _ in 0..nkids {
+        if *count >= budget {
+            break;
+        }
+        *count += 1;
+        let mode = match r.usize(4) {
+            0 => 0u8,
+            1 | 2 => 1u8,
+            _ => {
+                if !receives_from_parent && !has_reply_child {
+                    has_reply_child = true;
+                    2u8
+                } else {
+                    1u8
+                }
+            }
+        };
+        let pass: Vec<usize> = if mode == 2 { vec![0] } else { vec![] };
+        let (f, reg) = b.spawn(p, &pass);
+        let k = 1 + r.usize(3);
+        kids.push((f, reg));
+        sessions.push((f, reg, mode, k));
+        // the child's own part of the session comes first in its script
+        match mode {
+            1 => {
+                for _ in 0..k {
+                    b.recv(f);
+                }
+            }
+            2 => {
+                for _ in 0..k {
+                    b.recv(f);
+                    b.send(f, 1);
+                }
+            }
+            _ => {}
+        }
+        // then its own subtree
+        build_confluent(b, r, f, mode != 0, count, budget, depth + 1);
+        // sometimes run the session right away, before the next sibling is spawned
+        if r.chance(1, 2) {
+            let (f2, reg2, mode2, k2) = sessions.pop().unwrap();
+            run_session(b, p, f2, reg2, mode2, k2);
+        }
+    }
+    // remaining sessions, one after the other or with interleaved one-way sends
+    let mut pending: Vec<(usize, usize)> = vec![];
+    for (f, reg, mode, k) in sessions {
+        if mode == 1 && r.chance(1, 2) {
+            pending.push((reg, k));
+        } else {
+            run_session(b, p, f, reg, mode, k);
+        }
+    }
+    while !pending.is_empty() {
+        let i = r.usize(pending.len());
+        b.send(p, pending[i].0);
+        pending[i].1 -= 1;
+        if pending[i].1 == 0 {
+            pending.remove(i);
+        }
+    }
+    // await all children, in random but fixed (script) order
+    let mut order = kids.clone();
+    r.shuffle(&mut order);
+    for (_, reg) in order {
+        b.await1(p, reg);
+    }
+}
+
+fn run_session(b: &mut B, p: usize, _f: usize, reg: usize, mode: u8, k: usize) {
+    match mode {
+        1 => {
+            for _ in 0..k {
+                b.send(p, reg);
+            }
+        }
+        2 => {
+            for _ in 0..k {
+                b.send(p, reg);
+                b.recv(p);
+            }
+        }
+        _ => {}
+    }
+}
+
+/// Static check of the confluence class: every select has one source, no timeouts, every mailbox
+/// has a single sender script.
+pub fn is_confluent(sc: &Scenario) -> bool {
+    let regs = reg_scripts(sc);
+    let mut sender: HashMap<usize, usize> = HashMap::new();
+    for (s, script) in sc.scripts.iter().enumerate() {
+        for a in script {
+            match a {
+                Act::Send { reg, .. } => {
+                    let Some(t) = regs[s].get(*reg) else { return false };
+                    if let Some(prev) = sender.insert(*t, s)
+                        && prev != s
+                    {
+                        return false;
+                    }
+                }
+                Act::Select(srcs) => {
+                    if srcs.len() != 1 || matches!(srcs[0], Src::Timeout(_)) {
+                        return false;
+                    }
+                }
+                Act::Fail => return false,
+                _ => {}
+            }
+        }
+    }
+    true
+}
